@@ -59,6 +59,10 @@ CHECKS = {
          "Generated circuits using hints, commitments, lookup tables, range checks, emulated arithmetic, multicommit, nested deferred callbacks, Println and the sparse builder's wire-query interface are compiled K times sequentially, in parallel goroutines while other circuits compile, and in fresh processes; the serialized constraint systems must be byte-identical, and keys of the first compilation must prove and verify with the K-th.",
          "'Every run and process' is sampled (K=12/40 repeats, 6 parallel, 2 processes); a map of >= 3 entries iterated in a rarely taken path can need more tries than K.",
          "DESIGN.md §3 C11"),
+ "C15": ("differential property-based testing against reference hash implementations (rapid + length sweeps)",
+         "In-circuit SHA-256, RIPEMD-160, SHA-3/Keccak (Sum and FixedLengthSum with declared / actual / minimal lengths, arbitrary Write chunkings), MiMC (7 curves, Reset, State/SetState), Poseidon2 (permutation, Merkle-Damgard), Merkle proofs and Fiat-Shamir transcripts are compared with crypto/sha256, x/crypto, gnark-crypto for every message length around every block and padding boundary; tampered digests and invalid Merkle proofs must be unsatisfiable; test engine for the sweeps, both builders for a subset.",
+         "Quick tier sweeps lengths 0..block+2 plus every later boundary +-1 (full 0..3*block+2 in the thorough tier); the FixedLengthSum triangle covers boundary maxima only.",
+         "DESIGN.md §3 C15"),
 }
 
 PENDING = {}
